@@ -799,6 +799,15 @@ class Checker:
                            'nodes returned by the index carry the bookkeeping the planner assigned')
         HOOKS = ('__reduce__', '__reduce_ex__', '__getstate__', '__setstate__', '__getnewargs__', '__getnewargs_ex__', '__copy__', '__deepcopy__')
         present = [h for h in HOOKS if h in self.node.methods]
+        # the node's position is a tm: pickled inside the node, field by field as well (a hook that rebuilds it from one representation re-derives
+        # the other - a six-vector with a rotation beyond pi comes back wrapped, so the node no longer sits where the index filed it)
+        tmc = self.model.cls('basic_robotics.general.faser_transform', 'tm')
+        present_tm = [h for h in HOOKS if tmc is not None and h in tmc.methods]
+        rep.ob('R16.12', tmc.methods['__init__'] if tmc is not None and '__init__' in tmc.methods else self.node.methods['__init__'],
+               'tm (the node position) is pickled field by field', not present_tm,
+               'tm defines %s: every node the R-tree stores is pickled with its position, and the copies handed back by nearest / intersection queries rebuild the '
+               'position through that hook - from one of its two representations, so the other is re-derived (a rotation vector beyond pi is wrapped) and the '
+               'nodes exposed by the tree are not the samples that were accepted, filed and measured' % ', '.join(present_tm))
         rep.ob('R16.12', self.node.methods['__init__'], 'PathNode is pickled field by field', not present,
                'PathNode defines %s: the R-tree stores pickled nodes and every nearest / intersection query returns unpickled copies, so a node rebuilt by that hook '
                '(through the constructor, from some of its fields) no longer has the cost / parent the planner assigned - stored costs stop being parent cost plus '
